@@ -45,6 +45,9 @@ def signature(src: str, r):
 
     if r.verdict() != "diff" or not r.diff_keys:
         return None
+    if re.search(r"\bHEX_SETROUND\(", src):
+        # the statement leaves no trace in the emitted code (listed finding); the conversions that follow use the default rounding mode
+        return "setround_dropped"
     try:
         ast = CP.parse(src)
     except CP.ParseError:
